@@ -102,6 +102,8 @@ def invariants(sysobj):
     g = sysobj._g
     L = live(sysobj)
     gn = L["graph_names"]
+    if not any(kd == "Source" for kd in L["kinds"].values()):
+        bad.append(("sources.at_least_one", {"graph_names": sorted(gn)}))  # the last source can never be deleted
     if len(gn) != len(set(gn)):
         bad.append(("names.unique", {"graph_names": sorted(gn)}))
     if sorted(gn) != sorted(L["names"]):
@@ -285,6 +287,8 @@ def _first_diff(a, b):
 # ---------------------------------------------------------------------------------------------
 def random_op(rng, L, pool=NAME_POOL, p_collide=0.35):
     names = L["names"]
+    if not names:  # (only reachable when the code under test lost every component; invariants() reports that)
+        return {"op": "add_source", "comp": comp_entry(rng, "Source", rng.choice(pool)), "group": "", "rail": ""}
     rails = [r for r in L["rails"].values() if r]
     kinds = L["kinds"]
 
